@@ -161,3 +161,45 @@ Lemma lp_mint_raw_decimals_refuted :
     inv_le2b 200 X1 Y1 (D0 * (c03_w_supply + m) / c03_w_supply) = false /\  (* the same value per LP token is above the invariant after *)
     (c03_w_supply + m) * 10000 / c03_w_supply = 15875.
 Proof. split; [vm_compute; reflexivity|]. eexists. split; [vm_compute; reflexivity|]. vm_compute. repeat split. Qed.
+
+(* ---- the pair machine: every successful pool swap, in any state of any history ---- *)
+From WW Require Import Stable2Pool.
+Lemma reserve2_ok i p v : reserve2 i p = Ok v -> v = get2 i (q_bal p) - get2 i (q_fee p) /\ 0 <= v.
+Proof. unfold reserve2, csub. destruct (_ <=? _) eqn:E; intros H; inversion H. apply Z.leb_le in E. lia. Qed.
+
+Lemma pool2_swap_spec p i x ms p' e : swap2 p i x ms = Ok (p', e) -> 0 <= get2 (1 - i) (q_dec p) <= 18 ->
+  0 <= f_swap (q_fees p) -> 0 <= f_protocol (q_fees p) -> 0 <= f_burn (q_fees p) ->
+  let j := 1 - i in
+  let R := fun q t => get2 t (q_bal q) - get2 t (q_fee q) in
+  (i = 0 \/ i = 1) /\
+  exists s y, compute_swap_stable (R p i) (R p j) x (q_fees p) (q_amp p) (get2 i (q_dec p)) (get2 j (q_dec p)) = Ok s /\
+    0 <= y <= R p j /\
+    s_ret s + s_swapfee s + s_protfee s + s_burnfee s = R p j - y /\
+    get2 j (f_user e) = s_ret s /\ get2 i (f_user e) = - x /\
+    0 <= s_ret s /\ 0 <= s_swapfee s /\ 0 <= s_protfee s /\ 0 <= s_burnfee s /\
+    R p' j = y + s_swapfee s /\ R p' i = R p i + x.
+Proof.
+  intros H Hd F1 F2 F3.
+  assert (Ci : i = 0 \/ i = 1).
+  { unfold swap2 in H. apply bind_ok in H as (r0 & _ & H). apply bind_ok in H as (r1 & _ & H).
+    apply bind_ok in H as (u0 & EI & H). apply ensure_ok in EI. apply orb_true_iff in EI.
+    destruct EI as [EI|EI]; apply Z.eqb_eq in EI; auto. }
+  cbv zeta. split; [exact Ci|].
+  assert (DP : 0 < DEC) by reflexivity.
+  destruct p as [[b0 b1] [g0 g1] al bu S lp lps amp dec fs kinds].
+  destruct Ci as [-> | ->]; [change (1 - 0) with 1 in *|change (1 - 1) with 0 in *];
+    unfold swap2 in H; cbn [q_bal q_fee q_all q_burn q_fees q_amp q_dec q_supply q_lp q_lp_self q_cw20 Z.eqb orb] in H;
+    change (1 - 0) with 1 in H; change (1 - 1) with 0 in H;
+    apply bind_ok in H as (r0 & E0 & H); apply bind_ok in H as (r1 & E1 & H); apply bind_ok in H as (u0 & _ & H);
+    apply bind_ok in H as (s & EC & H); apply bind_ok in H as (f1 & _ & H); apply bind_ok in H as (fsum & _ & H);
+    apply bind_ok in H as (tot & _ & H); apply bind_ok in H as (u1 & _ & H); apply bind_ok in H as (u2 & _ & H);
+    inversion H; subst; clear H;
+    apply reserve2_ok in E0 as [-> N0]; apply reserve2_ok in E1 as [-> N1];
+    cbn [q_bal q_fee q_fees q_amp q_dec get2 fst snd Z.eqb Pos.eqb] in *;
+    destruct (compute_swap_stable_spec _ _ _ _ _ _ _ _ EC Hd) as (y & g & -> & Y & SUM & FS & FP & FB & RN & RL & _);
+    (assert (P1 : 0 <= s_swapfee s) by (rewrite FS; apply Z.div_pos; [apply Z.mul_nonneg_nonneg|]; lia));
+    (assert (P2 : 0 <= s_protfee s) by (rewrite FP; apply Z.div_pos; [apply Z.mul_nonneg_nonneg|]; lia));
+    (assert (P3 : 0 <= s_burnfee s) by (rewrite FB; apply Z.div_pos; [apply Z.mul_nonneg_nonneg|]; lia));
+    exists s, y; cbn [q_bal q_fee q_fees q_amp q_dec f_user get2 upd2 fst snd Z.eqb Pos.eqb zero2];
+    repeat split; try assumption; try lia.
+Qed.
